@@ -317,6 +317,8 @@ def run_c08(tier: str) -> int:
                        "f-string rendering of an atom yields a unique marker that is searched in the error chain"]
     for r in pmap(c08_case, [(t, tier) for t in C08_TEMPLATES]):
         rep.merge(r)
+        if rep.red_enough():
+            break
     if rep.vacuity.get("ok_paths", 0) == 0 or rep.vacuity.get("err_paths", 0) == 0:
         rep.inconclusive.append(f"vacuity: need both Ok and Err paths, got {rep.vacuity}")
     return rep.finish()
@@ -691,6 +693,8 @@ def run_c20(tier: str) -> int:
                        "file name of a node attached to the chain (what Logger.error renders)"]
     for r in pmap(_c20_dispatch, cases):
         rep.merge(r)
+        if rep.red_enough():
+            break
     if rep.vacuity.get("ok_paths", 0) == 0:
         rep.inconclusive.append("vacuity: no path on which both the split and the single-file schema are accepted")
     return rep.finish()
